@@ -104,10 +104,15 @@ fn matched_quantities_with_split_ratio(
     cumulative_ratio_effect: Decimal,
 ) -> (Decimal, Decimal) {
     let available_at_sell_time = available_at_buy_time / cumulative_ratio_effect;
-    let matched_qty_at_sell_time = remaining_at_sell_time.min(available_at_sell_time);
-    let matched_qty_at_buy_time = matched_qty_at_sell_time * cumulative_ratio_effect;
+    if remaining_at_sell_time >= available_at_sell_time {
+        // The whole offer is taken: claim exactly what the acquisition offers rather than
+        // the rounded quotient multiplied back (2 / 3 * 3 is 2.000...0001 in Decimal).
+        return (available_at_sell_time, available_at_buy_time);
+    }
+    let matched_qty_at_buy_time =
+        (remaining_at_sell_time * cumulative_ratio_effect).min(available_at_buy_time);
 
-    (matched_qty_at_sell_time, matched_qty_at_buy_time)
+    (remaining_at_sell_time, matched_qty_at_buy_time)
 }
 
 fn reserve_future_buy_consumption(
